@@ -8,6 +8,8 @@ case kinds
 """
 from __future__ import annotations
 
+from hypothesis import strategies as st
+
 from vf import core, pipedrive, rvdrive, rvtext
 from vf.core import Violation
 from vf.gen import rvprog
@@ -208,7 +210,9 @@ def check_pad(case, stats):
 
 
 def prog_case(max_len, max_steps):
-    return rvprog.program_case(max_len).map(lambda c: dict(c, kind="prog", max=max_steps))
+    # a quarter of the runs build the simulation in two steps (options given to the architectural state, simulation wrapped
+    # around it) - the option belongs to the state the pipeline lives in, whichever way it was constructed
+    return st.builds(lambda c, sf: dict(c, kind="prog", max=max_steps, state_first=sf), rvprog.program_case(max_len), st.sampled_from([False, False, False, True]))
 
 
 def pad_case(max_len, max_steps):
